@@ -31,7 +31,7 @@ def explore(ctx):
             lines.append("LEX " + common.hexs(s))
     nlex = len(lines)
     reads = []
-    for _ in range(6000 if ctx.quick else 60000):
+    for _ in range(20000 if ctx.quick else 60000):
         s = "".join(ctx.rng.choice(ALPHABET) for _ in range(ctx.rng.randint(1, 8)))
         reads.append("READ " + common.hexs(s))
     lines += reads
@@ -40,7 +40,7 @@ def explore(ctx):
     # (b) random datum trees under random layouts: the value read back must be the tree
     dg = gen.DatumGen(ctx.rng)
     cases = []
-    ntrees = 1500 if ctx.quick else 40000
+    ntrees = 6000 if ctx.quick else 40000
     for k in range(ntrees):
         d = dg.datum(ctx.rng.randint(1, 4))
         toks = dg.tokens(d)
